@@ -117,4 +117,11 @@ PROPS = {
         trusted_base=COMMON_TB + ["the recursion structure of the models (Dfs.dfs, Query.contains_typename, Codegen.collect / used_inputs / calc) mirrors the code's, visited sets included; tied by RunGen (outcome class of every surviving adversarial program, and exact output on the random corpus)", "stack capacity, graphql_parser's own recursion and the OS are runtime: the theorems bound the recursion depth of the generator's walks (by #fragments, #inputs, selection depth); the worker processes measure what actually happens (exit status / signal / wall time)", 'a Rust panic carries a message iff the payload is a &str / String (observed by the worker)'],
         assumptions=['spreads name defined fragments (guaranteed by resolve) for the fragment recursion test'],
     ),
+    "C08": dict(
+        coq_props=['Properties/C08.v'],
+        run_modules=['RunC08.v'],
+        harness_cmd='c08',
+        trusted_base=COMMON_TB + ['Cache.v is a hand model of lib.rs:48-150: two maps keyed by the path as given, get-or-insert under one lock each, loader panics leave the map unchanged (after the repair), the rest of the call is pure; tied by RunC08.corr (outcome classes of every call, the sequential log of the state machine, and digest equality exactly when (query, schema, options) contents coincide)', 'std::sync::Mutex gives the atomicity of each critical section; lazy_static initialisation; that equality of token streams is equality of their digests (64-bit FNV-1a)', 'files do not change during a history; fresh-process equality is observed, not proved', 'that generate_module_token_stream_inner is a pure function of (query text, schema, options) — it reads no global state (BTreeSet / BTreeMap orderings only)'],
+        assumptions=['options are compared by the four option sets the harness uses'],
+    ),
 }
